@@ -4,6 +4,8 @@ A case is one protocol line holding an operation tree in postfix form (see lean/
 
     val <prog>            the object the tree evaluates to (len(), chunks, plain_text(), str() as cells)
     fmt <spec> <prog>     format(x, spec) as screen cells
+    fmtv <via> <spec> <prog>  the same through another entry point (VIAS: x.__format__(spec), f-strings with a nested /
+                          a literal spec, str.format with a nested / a literal spec, format_map)
     eq <prog> <prog>      a == b, b == a, a != b
     alias <n> <x> <b>     u = x.fixed_len(n); u += b  -> x and u (x must not change)
     make <chunks>         CHText.make([chunks])      resize <n> <chunks>   CHText.resize_chunks_list([chunks], n)
@@ -44,6 +46,7 @@ THEOREMS = [
     "C08.format_cells",
     "C08.format_plain",
     "C08.format_width",
+    "C08.format_fill",
     "C08.iter_cells",
     "C08.eq_iff",
     "C08.eq_str_iff",
@@ -332,9 +335,11 @@ def parse_postfix(toks):
     return st
 
 
-def line_of(kind, trees, spec=None):
+def line_of(kind, trees, spec=None, via=None):
     toks = [x for t in trees for x in postfix(t)]
     if kind == "fmt":
+        if via is not None and via != "fn":
+            return "fmtv %s %s %s" % (via, enc_str(spec), " ".join(toks))
         return "fmt %s %s" % (enc_str(spec), " ".join(toks))
     if kind == "alias":
         return "alias %d %s" % (spec, " ".join(toks))
@@ -346,6 +351,8 @@ def parse_line(line):
     f = line.split()
     if f[0] == "fmt":
         return "fmt", parse_postfix(f[2:]), dec_str(f[1])
+    if f[0] == "fmtv":
+        return "fmt", parse_postfix(f[3:]), dec_str(f[2])
     if f[0] == "hist":
         return "hist", [], None
     if f[0] == "make":
@@ -391,6 +398,39 @@ def _self_iadd(x, in_list):
             y += y
         return y
     return _with_budget(go, ALIAS_BUDGET + 100 * len(getattr(x, "chunks", ())))     # a long text legitimately takes longer
+
+
+# entry points of formatting: all of them hand the spec to type(x).__format__
+VIAS = ["fn", "dm", "fs", "fl", "sf", "sl", "fm"]
+
+
+def via_of(line):
+    """entry point of a fmt / fmtv line"""
+    return line.split(None, 2)[1] if line.startswith("fmtv ") else "fn"
+
+
+def _literal_ok(spec):
+    """the spec can be written literally into an f-string / a str.format template (no braces, quotes,
+    backslashes, line ends or other unprintable characters)"""
+    return all(ch.isprintable() and ch not in '{}"\\' for ch in spec)
+
+
+def do_format(x, spec, via):
+    if via == "fn":
+        return format(x, spec)
+    if via == "dm":
+        return x.__format__(spec)
+    if via == "fl" and _literal_ok(spec):
+        return eval('f"{x:' + spec + '}"', {"x": x})          # a real f-string with the spec written in it
+    if via in ("fs", "fl"):
+        return f"{x:{spec}}"
+    if via == "sl" and _literal_ok(spec):
+        return ("{:" + spec + "}").format(x)
+    if via in ("sf", "sl"):
+        return "{:{}}".format(x, spec)
+    if via == "fm":
+        return "{v:{w}}".format_map({"v": x, "w": spec})
+    raise ValueError(via)
 
 
 def ev_real(t):
@@ -467,7 +507,7 @@ def impl(case):
             if kind == "val":
                 out.append(show_real(ev_real(trees[0])))
             elif kind == "fmt":
-                s = format(ev_real(trees[0]), spec)
+                s = do_format(ev_real(trees[0]), spec, via_of(line))
                 out.append("F " + _enc_cells(_cells_of_str(s)) if isinstance(s, str) else "?? " + type(s).__name__)
             elif kind == "eq":
                 a = ev_real(trees[0])
@@ -1129,10 +1169,13 @@ def oracle(case, replies):
             if not _in_format_domain(spec) or ref.kind not in ("t", "c"):
                 continue
             want = format(ref.plain, spec)               # str's own formatting
+            via = via_of(line)
             try:
-                got = format(obj, spec)
+                got = do_format(obj, spec, via)
             except Exception as e:
-                return "format-raises: format(%r-text, %r) raises %s" % (ref.plain, spec, type(e).__name__)
+                return "format-raises: format(%r-text, %r) [%s] raises %s" % (ref.plain, spec, via, type(e).__name__)
+            if not isinstance(got, str):
+                return "format-type: format(%r-text, %r) [%s] gives %s" % (ref.plain, spec, via, type(got).__name__)
             cells = _cells_of_str(got)
             if cells is None:
                 return "format-seq: format(%r-text, %r) has an unknown colour sequence" % (ref.plain, spec)
@@ -1191,7 +1234,24 @@ def oracle(case, replies):
 
 # ------------------------------------------------------------------ generators
 ALPHA = "abc xyz s05<é中"
-FILLS = [None, "*", " ", "0", "<", ">", "^", "x", "s", "5", "é", "=", "{"]
+# fill characters by kind (any character may be a fill once an align character follows it). ESC is not a fill here.
+FILL_KINDS = [
+    ("ascii", ["*", "x", "=", "_", "s", ".", "+", "-", "#", ",", "%", "!", ":", "'", "\\", '"']),
+    ("space", [" "]),
+    ("digit", ["0", "5", "9"]),                      # '0' with an explicit align is a fill, not the zero flag
+    ("align", ["<", ">", "^"]),
+    ("brace", ["{", "}"]),
+    ("newline", ["\n"]),
+    ("linesep", ["\r", "\x0b", "\x0c", "\x1c", "\x1d", "\x1e", "\x85", "\u2028", "\u2029"]),
+    ("control", ["\x00", "\t", "\x01", "\x7f", "\x9b"]),
+    ("bmp", ["é", "中", "\u0301", "\u0665", "²", "\xa0", "\u200b", "\ufeff", "\uffff"]),
+    ("nonbmp", ["\U0001F600", "\U00010000", "\U0001D7D8", "\U000E0001", "\U0010FFFF"]),
+]
+FILL_KIND = {ch: k for k, chars in FILL_KINDS for ch in chars}
+FILLS = [None] + [ch for _, chars in FILL_KINDS for ch in chars]
+FILLS_QUICK = [None] + [chars[0] for _, chars in FILL_KINDS] + ["<", "}"]
+# widths with a zero digit that is not the leading one (a leading 0 is the zero flag: outside)
+ZERO_WIDTHS = [10, 20, 100, 105]
 
 
 _ESC_MODE = [False]       # set by gen_cases around the ESC-content stream (generation is single threaded)
@@ -1349,9 +1409,9 @@ def _pieces_tree(rng, plain, cols):
 
 
 def _specs(rng, n, wide):
-    fill = rng.choice(FILLS)
+    fill = rng.choice([None, None, None] + rng.choice(FILL_KINDS)[1])     # kinds first: every kind is as likely
     align = rng.choice([None, "<", ">", "^"]) if fill is None else rng.choice(["<", ">", "^"])
-    width = rng.choice([None, 1, n, n + 1, n + 2, n + 3, max(1, n - 1), rng.randint(1, n + wide)])
+    width = rng.choice([None, 1, n, n + 1, n + 2, n + 3, max(1, n - 1), rng.randint(1, n + wide), rng.choice(ZERO_WIDTHS)])
     ty = rng.choice(["", "", "s"])
     return (fill or "") + (align or "") + ("" if width is None else str(width)) + ty
 
@@ -1389,11 +1449,14 @@ def gen_cases(rng, tier):
             yield _case(line_of("val", [("idx", bt, i)]), "index-exhaustive")
         for m in range(0, n + 4):
             yield _case(line_of("val", [("fl", bt, m)]), "fixedlen-exhaustive")
-        for fill in ([None, "*", "<", "0"] if quick else FILLS):
+        for fill in (FILLS_QUICK if quick else FILLS):
             for align in [None, "<", ">", "^"]:
                 if fill is not None and align is None:
                     continue
-                for w in [None] + list(range(1, n + 5)):
+                widths = [None] + list(range(1, n + 5)) + ZERO_WIDTHS[:2]
+                if quick and fill not in (None, "*", "<", "0"):
+                    widths = [None, max(1, n), n + 1, n + 4, 10]
+                for w in widths:
                     for ty in ("", "s"):
                         spec = (fill or "") + (align or "") + ("" if w is None else str(w)) + ty
                         yield _case(line_of("fmt", [bt], spec), "format-exhaustive")
@@ -1406,6 +1469,19 @@ def gen_cases(rng, tier):
                 yield _case(line_of("val", [("idx", ct, i)]), "chunk-index")
             for m in range(0, n + 4):
                 yield _case(line_of("val", [("fl", ct, m)]), "chunk-fixedlen")
+    # 1a. every fill character of every kind x every align x every entry point of formatting (format(), x.__format__,
+    # f-strings with a nested / a literal spec, str.format with a nested / a literal spec, format_map), on texts and chunks
+    subjects = [_base_tree(BASES[3]), _base_tree(BASES[5]), ("c", 1, "ab"), ("c", 0, "abc"), _base_tree(BASES[0])]
+    for fill in FILLS:
+        for align in ([None, "<", ">", "^"] if fill is None else ["<", ">", "^"]):
+            vias = list(VIAS)
+            rng.shuffle(vias)
+            for k, via in enumerate(vias if quick else vias * 4):
+                subj = subjects[(k + rng.randrange(len(subjects))) % len(subjects)]
+                n = len(ev_ref(subj).plain)
+                w = rng.choice([None, n, n + 1, n + 2, n + 3, n + 6] + ZERO_WIDTHS)
+                spec = (fill or "") + (align or "") + ("" if w is None else str(w)) + rng.choice(["", "", "s"])
+                yield _case(line_of("fmt", [subj], spec, via), "format-fill-via")
     # 1b. sizes: paddings, widths and truncations around 255/256, 1023..1025, 5000, 70000 (numbers travel, not blanks)
     for n in (SIZES if not quick else SIZES[:-1] + [70000]):
         for base in (BASES[0], BASES[3], BASES[5]):
@@ -1479,7 +1555,7 @@ def gen_cases(rng, tier):
                 t2 = ("add", t2, ("s", "q"))
             yield _case(line_of("val", [t2]), "tree-indexerror")
         elif roll < 0.80 and r.kind in ("t", "c"):
-            yield _case(line_of("fmt", [t], _specs(rng, len(r.plain), 6)), "format")
+            yield _case(line_of("fmt", [t], _specs(rng, len(r.plain), 6), rng.choice(VIAS)), "format")
         elif r.kind in ("t", "c", "s"):
             # equality: the same cells assembled differently / a near miss / a plain str
             p, c = r.plain, list(r.cols)
@@ -1532,8 +1608,11 @@ def gen_cases(rng, tier):
             yield _case(line_of("val", [("fl", t, rng.randint(-n - 3, -1))]), "malformed-fixedlen-negative")
         else:
             spec = rng.choice(["d", "x", "5d", "=5", "x=5", "<5x", "5.2", ".2", "a5", "<<<", "^^5", "5<", "5 ", "s5",
-                               "ss", "<s5", ">>s", "5>3", "q", "<q", "5,", "5%", "#5", "!5"])
-            yield _case(line_of("fmt", [t], spec), "malformed-format")
+                               "ss", "<s5", ">>s", "5>3", "q", "<q", "5,", "5%", "#5", "!5",
+                               # zero flag / precision (other fields of the mini-language: outside the property; the code
+                               # does not do what str does there - '05' pads with blanks, '.2' raises)
+                               "05", "<05", "*<05", "0<05", "005", "0", "00", "010", "05s", ">.3", "5.2s", "\n", "5\n", "{", "}5"])
+            yield _case(line_of("fmt", [t], spec, rng.choice(VIAS)), "malformed-format")
     # 5. thorough: every split of a short text into coloured chunks, every assembly, all bounds
     if not quick:
         yield from search_cases(rng, tier)
@@ -1898,14 +1977,18 @@ def shrink(case):
             if kind != "val" and y[0] in ("ls", "tp", "it") and not (kind == "alias" and i == 1):
                 continue
             try:
-                yield {"lines": [line_of(kind, trees[:i] + [y] + trees[i + 1:], spec)], "meta": meta}
+                yield {"lines": [line_of(kind, trees[:i] + [y] + trees[i + 1:], spec,
+                                         via_of(line) if kind == "fmt" else None)], "meta": meta}
             except Exception:
                 continue
     if kind == "alias" and spec > 0:
         yield {"lines": [line_of(kind, trees, spec - 1)], "meta": meta}
-    if kind == "fmt" and spec:
+    if kind == "fmt":
+        via = via_of(line)
+        if via != "fn":
+            yield {"lines": [line_of(kind, trees, spec)], "meta": meta}            # plain format()
         for i in range(len(spec)):
-            yield {"lines": [line_of(kind, trees, spec[:i] + spec[i + 1:])], "meta": meta}
+            yield {"lines": [line_of(kind, trees, spec[:i] + spec[i + 1:], via)], "meta": meta}
 
 
 # ------------------------------------------------------------------ evidence
@@ -1913,6 +1996,12 @@ RULE = ("one case = one protocol line. Streams: (1) exhaustive slices/indexes/fi
         "chunks and on single chunks; (1b) sizes: fixed_len / format width / resize_chunks_list / a history with paddings and "
         "truncations of 255, 256, 1023, 1024, 1025, 1100, 5000, 70000 characters (1% of the random fixed_len too; numbers travel, "
         "replies are run-length encoded on both sides); "
+        "(1a) format specs: every fill character of 10 kinds (ascii punctuation incl. quotes and backslash, space, digits "
+        "0/5/9 with an explicit align, the align characters, '{' '}', newline, 9 other line separators, controls incl. NUL, BMP incl. "
+        "combining / non-ASCII digits / U+FFFF, non-BMP up to U+10FFFF) x every align x every entry point (format(), x.__format__, "
+        "f-string with nested and with literally written spec, str.format with nested and literal spec, format_map) on texts and "
+        "chunks, widths incl. 10, 20, 100, 105 (a zero digit that is not the zero flag); the random format cases draw fill kind, "
+        "width and entry point the same way (tags fill:*, via:*, width:with-inner-zero, fill:0+explicit-align); "
         "(1c) a text / chunk / slice / sum used as the iterable: sep.join(x), list(x), CHText(list(x)), the for statement, "
         "on all base texts (one item per character is judged); (1d) content holding ESC, complete and split colour sequences "
         "(values, == and histories); "
@@ -1927,7 +2016,8 @@ RULE = ("one case = one protocol line. Streams: (1) exhaustive slices/indexes/fi
         "reflected +, join, [i:j], [i], fixed_len with operands that mention any object, also the target; += aimed at the "
         "merge path), every object dumped and re-rendered (len, chunks, plain_text, str, format) after every statement; "
         "(5) CHText.make / resize_chunks_list on random chunk lists incl. empty chunks; (6) Python's own slicing; (7) "
-        "out-of-domain stream (negative fixed_len, malformed specs, `t += [t, t]`-like operands: model = code only). "
+        "out-of-domain stream (negative fixed_len, malformed specs incl. zero flag '05' '<05' '0<05' and precision '.2' '5.2', "
+        "`t += [t, t]`-like operands: model = code only, never judged). "
         "non-trivial = at least two operations and two distinct colours in the tree; a history with a += after at least "
         "two earlier statements; make/resize with >= 2 chunks; py-slice of >= 2 characters. Distinct by protocol line; the "
         "`types:` / `spec:` / `hist-op:` tags give the distribution over operand types of every dispatching operation")
@@ -1942,8 +2032,14 @@ ASSUMPTIONS = ["colour id = (c_prefix, c_suffix) of a ColorFmt-produced chunk; t
                "fills are not ESC; texts may hold ESC and whole colour sequences (streams esc-content / esc-history): there "
                "str()/format() are not read back into cells (the X part of the reply is `~` on both sides), everything else is",
                "outside the property (not generated): `x in text` (falls back to iteration: substrings are never found), "
-               "hash() of chunks, slice steps (CHText raises ValueError), format specs with zero flag / precision / sign, "
-               "CHText.make keeping the caller's list object"]
+               "hash() of chunks, slice steps (CHText raises ValueError), CHText.make keeping the caller's list object",
+               "format specs with a zero flag / precision / sign / '=' align / grouping are other fields of the mini-language: "
+               "outside \"format with fill/align/width\" by the coordinator's ruling; a few are generated in the out-of-domain "
+               "stream (model = code only; the code differs from str there: '05' pads with blanks, '.2' raises ValueError)",
+               "format(), f-strings, str.format and format_map hand the spec unchanged to type(x).__format__ (CPython): the model "
+               "has one __format__ and ignores the entry point, the tie and the oracle exercise each of them; a spec with braces, "
+               "quotes, backslashes or unprintable characters cannot be written literally into a template and goes through "
+               "the nested form `{x:{spec}}` (tag via:fl(nested) / via:sl(nested))"]
 
 
 def nontrivial(case, replies):
@@ -2026,6 +2122,17 @@ def tags(case, replies):
                 ("align+" if any(c in "<>^" for c in body[:2]) else "") + \
                 ("width" if body[-1:].isdigit() else "") + ("+s" if spec.endswith("s") else "")
             yield "spec:" + (shape.strip("+") or "empty") if _in_format_domain(spec) else "spec:out-of-domain"
+            yield "via:" + via_of(line) + ("" if via_of(line) not in ("fl", "sl") or _literal_ok(spec) else "(nested)")
+            if _in_format_domain(spec):
+                if len(body) >= 2 and body[1] in "<>^":
+                    yield "fill:" + FILL_KIND.get(body[0], "other")
+                    if body[0] == "0":
+                        yield "fill:0+explicit-align"
+                    digits = body[2:]
+                else:
+                    digits = body.lstrip("<>^")
+                if "0" in digits[1:]:
+                    yield "width:with-inner-zero"
         yield "depth:%d" % max(_depth(t) for t in trees)
         for op in sorted(set(x[0] for t in trees for x in _nodes(t))):
             yield "op:" + op
@@ -2043,7 +2150,14 @@ LEVEL_TEXT = ("Kernel-checked for all inputs on the Lean model of CHText / CHTex
               "cells (the iteration loop terminates; sep.join(text) puts the separator between all characters whatever the chunks "
               "are), fixed_len = s[:n].ljust(n), "
               "format(text, [[fill]align][width][s]) = Python's padding of the cells with default-coloured pads, hence its visible "
-              "text = format(plain_text, spec); the chunk versions likewise; (3) == on texts satisfying the invariant is equality of "
+              "text = format(plain_text, spec), for ANY fill character (C08.format_fill writes the spec string out: newline and other "
+              "line separators, '{', '}', digits - also '0' when an align character follows it -, the align characters themselves, "
+              "non-BMP characters) and every width written without a leading zero ('10', '105' are inside); the chunk versions "
+              "(Chunk.__format__) likewise. EXCLUDED from every format theorem and from the oracle: the other fields of the "
+              "mini-language, in particular the ZERO FLAG and PRECISION, where the code does NOT behave like str - "
+              "strip_colors(format(CHText(RED('ab'),'c'), '05')) is 'abc  ' while format('abc', '05') is 'abc00' (same for '<05'), and "
+              "'.2' / '5.2' raise ValueError where str gives 'ab' / 'ab   ' (FmtSpec.Valid requires a width without leading zero; the "
+              "coordinator ruled these specs outside \"format with fill/align/width\"; they are generated and only compared model = code); (3) == on texts satisfying the invariant is equality of "
               "cells (canonical chunk list is unique: C08.canon_repr), text == str iff default-coloured cells of that str, text == "
               "chunk, chunk == chunk/str outside the both-empty exception, with Python's reflected dispatch (C08.eq_parts); "
               "(4) C08.eval_refines: every typed operation tree of any depth over these operations evaluates in the model to a "
@@ -2071,7 +2185,9 @@ LEVEL_NOTE = ("Trusted: Lean kernel (axioms propext, Classical.choice, Quot.soun
               "history model (checked by mutating operands after an operation and re-observing every object) and that the real "
               "class has no cache (checked by re-rendering after every statement; seed C09-m4 is caught by this check). Not "
               "modelled: slice steps (rejected by CHText), format specs outside [[fill]align][width][s] (zero flag, precision, sign: "
-              "the model answers `unmodelled` or follows the code, no theorem), negative fixed_len (model follows the code, outside "
+              "the model follows the code - int() of everything after the align character - or answers `unmodelled`; no theorem, "
+              "not judged; see the '05' example in the level text), the entry point of formatting (f-string / str.format / "
+              "format_map: compared, not modelled), negative fixed_len (model follows the code, outside "
               "the property), `in`, hash, the list object CHText.make keeps. `t += [t, t]`-like operands are in the model (code "
               "reading) but have no str reading, so the oracle does not judge them.")
 TECHNIQUE = ("Lean 4 refinement proof (chunk list -> list of coloured cells) + canonical-form invariant + store/frame model for "
